@@ -127,8 +127,7 @@ class Acc:
         self.validated += o.validated
         self.nontrivial += o.nontrivial
         self.refused += o.refused
-        if len(self.outcomes) < MAXOUT:
-            self.outcomes |= o.outcomes
+        self.outcomes |= o.outcomes
         self.nviol += o.nviol
         self.viol.extend(o.viol)
         for s in o.samples:
